@@ -158,4 +158,19 @@ def flush (s : State) : List Event :=
   ++ [.postprocess, .handover]
   ++ List.replicate (s.d2r.length + 1) .deliverR
 
+/-! ### the driver's periodic post-processing (`DriverActor.receiveMsg_WakeupMessage`): a timer that grows by the wake-up
+interval `w` and fires (and is reset) when it reaches the post-processing interval `p` -/
+
+/-- one wake-up of an unfinished race: new timer, whether `post_process_samples` is called -/
+def wake (w p t : Nat) : Nat × Bool :=
+  if t + w ≥ p then (0, true) else (t + w, false)
+
+/-- the timer after `n` wake-ups and how often post-processing fired -/
+def wakes (w p : Nat) : Nat → Nat → Nat × Nat
+  | 0, t => (t, 0)
+  | n + 1, t =>
+    let r := wake w p t
+    let rest := wakes w p n r.1
+    (rest.1, (if r.2 then 1 else 0) + rest.2)
+
 end Samples
